@@ -51,7 +51,7 @@ var srcFiles = map[string][]byte{}
 var srcMu sync.Mutex
 
 func newExec(prog *Program, fi *FuncInfo, ct *Contract, opts *Options) *Exec {
-	e := &Exec{prog: prog, fn: fi, pkgShort: pkgShort(fi.Pkg.PkgPath), info: fi.Pkg.TypesInfo, contract: ct, opts: opts,
+	e := &Exec{anchorPick: -1, prog: prog, fn: fi, pkgShort: pkgShort(fi.Pkg.PkgPath), info: fi.Pkg.TypesInfo, contract: ct, opts: opts,
 		declared: map[string]bool{}, counters: map[string]int{}, dtSorts: map[string]bool{},
 		assumptions: map[string]bool{}, inlined: map[string]bool{}, kindCodes: map[string]int{},
 		boxed: map[types.Object]bool{}, heapMetas: map[string]heapMeta{}, defs: map[string]string{},
